@@ -484,6 +484,103 @@ def rule_e7(ctx):
         raise Unrecognised("C19.E7", "fixture", "positive fixture (seek on a stream) did not fire")
 
 
+def _validated_by(fn, expr, validator: str, depth=0):
+    """Does every value the expression `expr` (inside function `fn`) can produce pass through `validator(...)`?  Follows Maybe chains (.map/.bind/.bind_optional with a
+    function argument), conditional expressions and local helper functions.  Returns (ok, offending node or None); raises KeyError for shapes it does not know."""
+    if depth > 5:
+        raise KeyError("depth")
+    if isinstance(expr, ast.Call) and isinstance(expr.func, ast.Attribute) and expr.func.attr in ("map", "bind", "bind_optional") and len(expr.args) == 1:
+        ok, off = _applies_validator(fn, expr.args[0], validator, depth)
+        if ok:
+            return True, None
+        # maybe an earlier link of the chain validates
+        try:
+            ok2, _ = _validated_by(fn, expr.func.value, validator, depth + 1)
+        except KeyError:
+            ok2 = False
+        return (True, None) if ok2 else (False, off)
+    if isinstance(expr, ast.Call) and call_name(expr) == validator:
+        return True, None
+    if isinstance(expr, ast.Call) and isinstance(expr.func, ast.Attribute) and expr.func.attr in ("from_optional", "from_value"):
+        return False, expr
+    raise KeyError(src(expr)[:60])
+
+
+def _applies_validator(fn, f_expr, validator: str, depth):
+    """Is `f_expr` (a function value) the validator, or a local function / lambda all of whose results are validated?"""
+    if isinstance(f_expr, ast.Name) and f_expr.id == validator:
+        return True, None
+    body_exprs = []
+    if isinstance(f_expr, ast.Lambda):
+        body_exprs = [f_expr.body]
+    elif isinstance(f_expr, ast.Name):
+        local = [n for n in ast.walk(fn) if isinstance(n, ast.FunctionDef) and n.name == f_expr.id]
+        if len(local) != 1:
+            raise KeyError(f_expr.id)
+        body_exprs = [r.value for r in walk_local(local[0]) if isinstance(r, ast.Return) and r.value is not None]
+    else:
+        raise KeyError(src(f_expr)[:40])
+
+    def branches(e):
+        return branches(e.body) + branches(e.orelse) if isinstance(e, ast.IfExp) else [e]
+
+    for e in body_exprs:
+        for b in branches(e):
+            if not (isinstance(b, ast.Call) and call_name(b) == validator):
+                return False, b
+    return bool(body_exprs), None
+
+
+def rule_e12(ctx):
+    """Python extension files: whatever the file's `grammar` symbol yields - the value of a variable OR the result of calling a function - is checked to be a
+    Dict[str, List[str]] (exit 65 with a message otherwise) before anything else sees it; likewise `predicates`."""
+    f = ctx.repo.func(CLI, "process_python_extension", "C19.E12")
+    c = f"{CLI}:process_python_extension"
+    for var, validator, what in (("grammar", "assert_is_valid_grammar", "grammar"), ("predicates", "assert_is_set_of_predicates", "predicate set")):
+        asg = [a for a in walk_local(f) if isinstance(a, ast.Assign) and len(a.targets) == 1 and src(a.targets[0]) == var]
+        if len(asg) != 1:
+            raise Unrecognised("C19.E12", c, f"assignment of `{var}` not found")
+        try:
+            ok, off = _validated_by(f, asg[0].value, validator)
+        except KeyError as e:
+            raise Unrecognised("C19.E12", c, f"construction of `{var}` not understood ({e})")
+        ctx.check(ok, "E12-extension-validated", c, f"every {what} taken from the extension file passes {validator}", site(off if off is not None else asg[0]),
+                  f"`{' '.join(src(off).split())[:60] if off is not None else var}` reaches `{var}` without {validator}: a malformed {what} returned by the extension file's function is not "
+                  "rejected with exit code 65 and a message - later stages fail with a misleading verdict (`input could not be parsed`, exit 1) or an uncaught exception",
+                  f"via {validator}")
+    val = [n for n in ast.walk(f) if isinstance(n, ast.FunctionDef) and n.name == "assert_is_valid_grammar"]
+    if len(val) != 1:
+        raise Unrecognised("C19.E12", c, "assert_is_valid_grammar not found")
+    t = " ".join(src(val[0]).split())
+    ok = "isinstance(maybe_grammar, dict)" in t and "isinstance(key, str)" in t and "isinstance(expansions, list)" in t and "isinstance(expansion, str)" in t and "sys.exit(DATA_FORMAT_ERROR)" in t
+    if not ok:
+        raise Unrecognised("C19.E12", f"{c}.assert_is_valid_grammar", "validator body not in the recognised shape")
+    ctx.ok("E12-extension-validated", f"{c}.assert_is_valid_grammar", "dict of str -> list of str, else exit 65", site(val[0]), "four isinstance tests")
+
+
+def rule_e13(ctx):
+    """`isla solve` writes each solution followed by exactly ONE line break that is not part of it (print's default end); `isla check` / `parse` remove exactly one
+    trailing line break from an input file (E10).  The two are a writer/reader pair: an `end` that depends on the solution text drops the separator for solutions that end
+    in a line break themselves, and the reader then strips a line break that belongs to the word."""
+    f = ctx.repo.func(CLI, "solve", "C19.E13")
+    c = f"{CLI}:solve"
+    prints = [x for x in calls_in(f) if call_name(x) == "print" and any(k.arg == "file" and src(k.value) == "stdout" for k in x.keywords) and x.args and isinstance(x.args[0], ast.Name)]
+    sol = [p_ for p_ in prints if p_.args[0].id == "result"]
+    if len(sol) != 1:
+        raise Unrecognised("C19.E13", c, "print(result, ..., file=stdout) not found")
+    end = next((k.value for k in sol[0].keywords if k.arg == "end"), None)
+    if end is None or (isinstance(end, ast.Constant) and end.value == "\n"):
+        ctx.ok("E13-solution-separator", c, "every printed solution is followed by one separator line break", site(sol[0]), "print's default end")
+    elif isinstance(end, ast.Constant):
+        ctx.viol("E13-solution-separator", c, "every printed solution is followed by one separator line break", site(sol[0]), f"solutions are printed with end={end.value!r}")
+    elif any(isinstance(x, ast.Name) and x.id == "result" for x in ast.walk(end)):
+        ctx.viol("E13-solution-separator", c, "every printed solution is followed by one separator line break", site(sol[0]),
+                 f"the separator depends on the solution text (`end={' '.join(src(end).split())[:50]}`): a solution that itself ends in a line break is written without separator, and "
+                 "`isla check` - which removes one trailing line break from an input file - then strips a character of the word (solve > f; check f answers 1)")
+    else:
+        raise Unrecognised("C19.E13", c, f"end={src(end)[:40]} not understood")
+
+
 def rule_e8(ctx):
     """A grammar that is syntactically fine but uses a nonterminal without rules (or has no <start>) is malformed: parse_grammar must reject it inside its
     try (-> exit 65); otherwise GrammarGraph.from_grammar fails an assertion later and the command ends in a traceback."""
@@ -542,6 +639,8 @@ def run(ctx) -> str:
     ctx.guarded("E9", lambda: rule_e9(ctx))
     ctx.guarded("E10", lambda: rule_e10(ctx))
     ctx.guarded("E8", lambda: rule_e8(ctx))
+    ctx.guarded("E12", lambda: rule_e12(ctx))
+    ctx.guarded("E13", lambda: rule_e13(ctx))
     ctx.guarded("E7", lambda: rule_e7(ctx))
     ctx.guarded("E1", lambda: rule_e1(ctx))
     ctx.guarded("E2", lambda: rule_e2(ctx))
